@@ -36,7 +36,7 @@ Lemma import_one_spec s x s' :
 Proof.
   unfold import_one. fold (ref_parents s x).
   cbv beta iota zeta.
-  destruct (import_commit _ _ (i_fresh s) (fst (x_cmds x) ++ snd (x_cmds x))) as [r|e]; simpl; [|discriminate].
+  destruct (import_commit _ (i_fresh s) (fst (x_cmds x) ++ snd (x_cmds x))) as [r|e]; simpl; [|discriminate].
   intros H. inversion H; subst; clear H. simpl.
   eexists. split; [reflexivity|]. split; [|split; reflexivity].
   unfold meta_rel; simpl. repeat split; reflexivity.
@@ -302,7 +302,7 @@ Proof.
 Qed.
 
 Example parents_example :
-  exists s', import_one (mkI [(1%nat, mkD [] [] None 0 0 [] [] [])] (mkRT [] [] None) 1000 [])
+  exists s', import_one (mkI [(1%nat, mkD [] [] None 0 0 [] [])] (mkRT [] [] None) 1000 [])
                         (export_commit true h_two [0%nat; 1%nat] 1 (srev0 [0%nat] [F 1 0 bA tB])) = Ok s'.
 Proof. eexists. vm_compute. reflexivity. Qed.
 
